@@ -221,7 +221,7 @@ def run_case(rec, case):
         if ulen < thr:
             V('encoding-below-threshold', 'Content-Encoding %r for a body of '
               '%d bytes, threshold %d' % (declared, ulen, thr))
-    if rec.evaluations % 401 == 0:
+    if rec.evaluations % 401 == 1:
         rec.sample({'server': srv, 'accept_encoding': ae, 'compression': comp,
                     'threshold': tpos, 'j': j, 'kind': kind,
                     'declared': declared,
